@@ -8,7 +8,7 @@ def run(tier, replay=None):
         T.validate(c, "C16", replay); return c.finish()
     thorough = tier == "thorough"
     cases = T.corpus(c, thorough, thorough)
-    tr = T.observe(c, cases, 70, 0, limit=None if thorough else 8)
+    tr = T.observe(c, cases, 70, 0, limit=None)
     T.validate(c, "C16", tr)
     c.cov["exhaustive"] = False
     c.cov["rule"] = "TLC-enumerated built-in type expressions (all leaves, every unary constructor over every leaf, wrappers of wrappers, binaries, tuple arities 0..20, arrays, BitVec) in generated programs of ~70 expressions: per program the full ==, cmp, partial_cmp and hash matrices over all ordered pairs are compared with the identities DECLARED by the types (TypeId of <T as TypeInfo>::Identity, read by the program itself), order axioms checked, equal identity => equal type_info()"
